@@ -1,5 +1,9 @@
 """C11 — the syntax tree is lossless and every reported span is exact.
 
+(S) Lex.tla: reference lexer (patterns of lexer.rs as data, maximal munch, literal before regex, lexical error = the
+    characters consumed before the automaton got stuck); TLC checks Tiles / Genuine / Maximal / ErrorsJustified on every
+    text of up to 4 (quick) / 5 (thorough) characters over six sub-alphabets and the real lexer is run on all of them.
+
 (S) design level: Peg.tla's Lossless / Contiguous (hull) invariants are model-checked by C12 on
     every token sequence of the families (the tree the engine builds has exactly the consumed
     non-trivia tokens as leaves, in order, and no node is stolen by a later alternative).
@@ -157,10 +161,57 @@ def judge(chk, texts, label):
     return len(obs)
 
 
+LEX_FAMILIES = ["words", "slash", "quote", "punct", "blank", "key"]
+
+
+def lexer_reference(chk, tier):
+    """(S)+(O) Lex.tla: the reference lexer (maximal munch over the patterns of lexer.rs as data) on every text of up to 4/5
+    characters over six sub-alphabets; TLC checks the reference's own properties (Tiles, Genuine, Maximal, ErrorsJustified) and
+    prints the reference tokenisation of every text; every text goes through the real lexer.  The real observations are
+    judged by the Tiling monitor like all others (the property); kinds and spans are compared with the reference
+    (disagreement = model drift: the property does not say which kind a token has)."""
+    import concurrent.futures as cf
+    cfgs = ["Lex_%s_%s.cfg" % (f, tier) for f in LEX_FAMILIES]
+    with cf.ThreadPoolExecutor(max_workers=3) as ex:
+        results = list(ex.map(lambda c: run_tlc("LexMC", c, workers=5, timeout=3000, java_opts=["-Xss512m"], xmx="6g"), cfgs))
+    cases = []
+    for c, r in zip(cfgs, results):
+        chk.add_tlc(r)
+        if not r.ok:
+            chk.violation("C11|design|lexer", "Lex.tla: the reference lexer violates one of its own properties (%s)" % c, {"tlc": (r.violation or "")[:2000]})
+        cases += r.cases
+    texts = ["".join(c["text"]) for c in cases]
+    real = run_oalv_parallel("lex", [{"text": t} for t in texts], jobs=12)
+    agree = 0
+    for c, t, o in zip(cases, texts, real):
+        if o.get("outcome") == "skipped":
+            continue
+        if o.get("outcome") != "ok":
+            chk.violation("C11|lex-%s" % o.get("outcome"), "the lexer %s on %r" % (o.get("outcome"), t), {"text": t, "obs": o})
+            continue
+        # byte offsets -> character indices (1-based, end exclusive) as in the specification
+        pos = {b: i + 1 for i, b in enumerate(o["boundaries"])}
+        got = sorted([(pos.get(tk[1]), pos.get(tk[2]), tk[0]) for tk in o["tokens"]] + [(pos.get(e[0]), pos.get(e[1]), "") for e in o["errors"]])
+        want = sorted((x["from"], x["to"], x["kind"]) for x in c["toks"])
+        if got == want:
+            agree += 1
+            chk.cov["traces_validated_against_impl"] += 1
+        else:
+            k = next((i for i, (a, b) in enumerate(zip(got, want)) if a != b), min(len(got), len(want)))
+            chk.drift("C11|lexer-reference", "Lex.tla and the real lexer tokenise %r differently (real %s, reference %s)" % (t, got[k:k + 2], want[k:k + 2]))
+    chk.cov["evaluations"] += len(texts)
+    chk.notes["lexer_reference"] = {"texts": len(texts), "same_tokenisation": agree}
+    return texts
+
+
 def run(tier):
     chk = Check("C11", tier)
     rng = random.Random(common.seed())
     common.build_harness()
+    lt = lexer_reference(chk, tier)
+    if tier == "quick" and len(lt) > 6000:
+        lt = random.Random(common.seed()).sample(lt, 6000)
+    judge(chk, lt, "lexer-families")
     base = [t for _, t in corpus.texts()]
     judge(chk, base, "corpus")
     n = 500 if tier == "quick" else 12000
@@ -178,7 +229,7 @@ def run(tier):
                        "real code and the observation judged by TLC (Tiling.tla); non-trivial = tree of more than 8 nodes or at least one lexical error; "
                        "texts are de-duplicated")
     chk.assumptions = [
-        "the logos-generated lexer is observed, not modelled; the design-level Lossless/Hull invariants of the parser engine are model-checked in C12",
+        "the lexer has a reference specification (Lex.tla: maximal munch over the patterns as data, error = the characters consumed before the automaton got stuck) with exhaustive small-scope conformance; the logos DFA itself is not transcribed; the design-level Lossless/Hull invariants of the parser engine are model-checked in C12",
         "token text check: the value stored in a token must be the source slice of its span (modulo the quotes/prefix the lexer strips)",
         "an end-of-input span may end one position past the end of the text; every other span end must be a character boundary inside the text",
     ]
